@@ -296,7 +296,7 @@ ROBOTS_HOPS = ['/r2.txt', 'http://a.test/other.txt', 'http://b.test/robots.txt',
                'http://www.a.test/robots.txt', '//b.test/r', 'https://b.test:8443/x', 'http://a.test./robots.txt', 'HTTP://A.TEST/robots.txt']
 
 
-def http_once(raw, close, seed, robots=False):
+def http_once(raw, close, seed, robots=False, writer=None):
     from wpull.network.pool import ConnectionPool
     from wpull.protocol.http.client import Client
     from wpull.protocol.http.request import Request
@@ -321,9 +321,27 @@ def http_once(raw, close, seed, robots=False):
                     return await compat._ensure(coro)
             else:
                 async def run_it():
+                    wsession = None
+                    request = Request('http://a.test/dir/x')
+                    if writer is not None:
+                        # the file writer of a saving crawl, called as WebProcessorSession does: before the request, when
+                        # the response head is in, after the download (all of it outside the per-URL handler)
+                        import wpull.writer as ww
+                        from wpull.path import PathNamer
+                        cls = {'overwrite': ww.OverwriteFileWriter, 'anticlobber': ww.AntiClobberFileWriter, 'timestamping': ww.TimestampingFileWriter}[writer['kind']]
+                        wsession = cls(PathNamer(writer['dir'], use_dir=True), headers_included=writer['headers'], local_timestamping=True,
+                                       adjust_extension=writer['adjust'], content_disposition=writer['cd'], file_continuing=writer['cont']).session()
+                        request = wsession.process_request(request) or request
                     with client.session() as session:
-                        response = await compat._ensure(session.start(Request('http://a.test/x')))
-                        await compat._ensure(session.download(file=io.BytesIO(), duration_timeout=30))
+                        response = await compat._ensure(session.start(request))
+                        if wsession is not None:
+                            wsession.process_response(response)
+                        await compat._ensure(session.download(file=None if (wsession is not None and response.body) else io.BytesIO(), duration_timeout=30))
+                        if wsession is not None:
+                            if response.status_code in (200, 206):
+                                wsession.save_document(response)
+                            else:
+                                wsession.discard_document(response)
                         # what the option features do with the parsed response afterwards, outside the per-URL
                         # handler: --save-headers / --server-response serialise it, the WARC/CDX and database
                         # paths take its dictionary form and single fields
@@ -348,6 +366,23 @@ def http_once(raw, close, seed, robots=False):
     return compat.run(go())
 
 
+def http_with_writer(raw, close, seed, writer):
+    import shutil
+    import tempfile
+    tmp = tempfile.mkdtemp(prefix='wpull-verif-c09w-')
+    cwd = os.getcwd()
+    try:
+        os.chdir(tmp)
+        if writer.get('cont') or writer['kind'] == 'timestamping':
+            os.makedirs(os.path.join(tmp, 'a.test', 'dir'), exist_ok=True)
+            with open(os.path.join(tmp, 'a.test', 'dir', 'x'), 'wb') as f:
+                f.write(b'earlier part')
+        return http_once(raw, close, seed, writer=dict(writer, dir=tmp))
+    finally:
+        os.chdir(cwd)
+        shutil.rmtree(tmp, ignore_errors=True)
+
+
 def stream_http(ctx, n, robots=False):
     rng = ctx.rng
     name = 'robots' if robots else 'http'
@@ -364,15 +399,19 @@ def stream_http(ctx, n, robots=False):
         else:
             raw, close = hostile.http_response(rng)
         seed = rng.randrange(1 << 30)
+        writer = None
+        if not robots and rng.random() < 0.5:
+            writer = {'kind': rng.choice(['overwrite', 'overwrite', 'anticlobber', 'timestamping']), 'headers': rng.random() < 0.3, 'adjust': rng.random() < 0.3,
+                      'cd': rng.random() < 0.5, 'cont': rng.random() < 0.2}
         first = first or {'stream': name, 'raw': raw, 'close': close, 'seed': seed}
-        r = http_once(raw, close, seed, robots=robots)
+        r = http_with_writer(raw, close, seed, writer) if writer else http_once(raw, close, seed, robots=robots)
         tag = 'ok' if r is None else r if isinstance(r, str) else type(r).__name__
         ctx.case((name, tuple(raw) if isinstance(raw, list) else raw, close),
                  tags=['%s:%s' % (name, tag)] + (['%s:moved-%d' % (name, len(raw) - 1)] if isinstance(raw, list) else []))
         if isinstance(r, Exception) and not isinstance(r, remote_errors()):
             cls, where = classify(r)
-            ctx.fail(cls, where, {'stream': name, 'raw': raw, 'close': close, 'seed': seed},
-                     '%s raised %r, which is not one of the per-URL error kinds' % ('can_fetch' if robots else 'Session.start/download', r))
+            ctx.fail(cls, where, {'stream': name, 'raw': raw, 'close': close, 'seed': seed, 'writer': writer},
+                     '%s raised %r, which is not one of the per-URL error kinds' % ('can_fetch' if robots else 'Session.start/download' + (' / file writer' if writer else ''), r))
     if first:
         ctx.sample(first)
 
@@ -747,7 +786,10 @@ def replay(ctx, case, kind=None, where=None):
             ctx.fail(cls, w, case, 'scrape_info raised %r' % e)
     elif s in ('http', 'robots'):
         ctx.case((s, repr(case['raw'])))
-        r = http_once(case['raw'], case['close'], case['seed'], robots=(s == 'robots'))
+        if case.get('writer'):
+            r = http_with_writer(case['raw'], case['close'], case['seed'], case['writer'])
+        else:
+            r = http_once(case['raw'], case['close'], case['seed'], robots=(s == 'robots'))
         if isinstance(r, Exception) and not isinstance(r, remote_errors()):
             cls, w = classify(r)
             ctx.fail(cls, w, case, 'raised %r' % r)
